@@ -214,18 +214,19 @@ def body_fit(case):
     cap = 2e-3 if high else 2e-2
     # the solver's accuracy refers to the WEIGHTED residual: a receptor weighted by w < 1 is resolved to cap / w only
     if isinstance(W, str) and W == "inverse":
-        cap = cap * float(max(1.0, np.max(np.abs(B1))))
+        cap = cap * np.maximum(1.0, np.abs(B1))          # per entry: weight 1 / target
     elif not isinstance(W, str):
         cap = cap / float(min(1.0, np.min(np.asarray(W, dtype=float))))
     smin = float(np.linalg.svd(sv1.Ap, compute_uv=False)[min(sv1.Ap.shape) - 1])
-    xtol = 4 * cap / max(smin, 1e-9)
+    xtol = 4 * float(np.max(cap)) / max(smin, 1e-9)
     e1 = np.linalg.norm(P1 - B1, axis=1)
     e2 = np.linalg.norm(P2 - B1 * c, axis=1) / c
-    ok = bool(np.all(np.abs(P2 / c - P1) <= 2 * cap) and np.all(np.abs(e2 - e1) <= 2 * cap) and np.all(np.abs(X2 * s - X1) <= xtol))
+    ecap = 2 * (np.linalg.norm(np.broadcast_to(cap, B1.shape), axis=1) if np.ndim(cap) else cap)
+    ok = bool(np.all(np.abs(P2 / c - P1) <= 2 * cap) and np.all(np.abs(e2 - e1) <= ecap) and np.all(np.abs(X2 * s - X1) <= xtol))
     if case["asserted"]:
         check(np.all(np.abs(P2 / c - P1) <= 2 * cap), "units:prediction-not-equivariant",
               f"predicted captures do not scale by c: {P1.tolist()} vs {(P2 / c).tolist()} (s={s:.4g}, c={c:.4g})")
-        check(np.all(np.abs(e2 - e1) <= 2 * cap), "units:error-not-equivariant", f"fit errors do not scale by c: {e1.tolist()} vs {e2.tolist()}")
+        check(np.all(np.abs(e2 - e1) <= ecap), "units:error-not-equivariant", f"fit errors do not scale by c: {e1.tolist()} vs {e2.tolist()}")
         check(np.all(np.abs(X2 * s - X1) <= xtol), "units:intensities-not-equivariant",
               f"uniquely determined intensities do not scale by 1/s: {X1.tolist()} vs s*{(X2 * s).tolist()} (s={s:.4g}, c={c:.4g})")
         labs.append("nt:fit-equivariance" if max(s, 1 / s, c, 1 / c) >= 3 else "fit-small-change")
